@@ -187,16 +187,32 @@ Definition mask_ostep (m : pmask) (o : ostep) : ostep :=
 
 Definition step_relevant := sop -> bool.
 
-Definition kv_corr_proj (m : pmask) (rel : step_relevant) (c : scase * list ostep) : bool :=
+(* per-key properties look only at the document the call addressed *)
+Definition only_addressed (o : sop) (ob : ostep) : ostep :=
+  match o with
+  | SKv c k _ =>
+      let sn := os_snap ob in
+      mkOstep (os_resp ob) (os_live ob) (os_dump ob)
+              (mkSnap (sn_colls sn) (filter (fun e => sspair_eqb (fst e) (c, k)) (sn_rows sn)) (sn_order sn) (sn_lastcas sn))
+  | _ => ob
+  end.
+
+Definition kv_corr_proj_gen (addr : bool) (m : pmask) (rel : step_relevant) (c : scase * list ostep) : bool :=
   match first_mismatch 0 (srun (fst c)) (snd c) with
   | None => true
   | Some (i, Some mo, Some ob) =>
       match nth_error (sc_steps (fst c)) (N.to_nat i) with
-      | Some (_, o) => if rel o then ostep_match (mask_ostep m mo) (mask_ostep m ob) else true
+      | Some (_, o) =>
+          if rel o then
+            let f := if addr then only_addressed o else (fun x => x) in
+            ostep_match (mask_ostep m (f mo)) (mask_ostep m (f ob))
+          else true
       | None => false
       end
   | Some _ => false      (* the implementation trace stopped early or ran on: every property is concerned *)
   end.
+Definition kv_corr_proj := kv_corr_proj_gen false.
+Definition kv_corr_addr := kv_corr_proj_gen true.
 
 Definition rel_all : step_relevant := fun _ => true.
 Definition rel_kv (f : kop -> bool) : step_relevant := fun o => match o with SKv _ _ op => f op | _ => false end.
@@ -220,12 +236,12 @@ Definition mask_C08 := mkMask    true  true  true  true  true  true  true  true 
 Definition mask_C17 := mkMask    false false false false false true  false false true  false.
 
 Definition kv_corr_C01 := kv_corr_proj mask_C01 rel_all.
-Definition kv_corr_C02 := kv_corr_proj mask_C02 (rel_kv (fun op => is_some (cas_arg op))).
+Definition kv_corr_C02 := kv_corr_addr mask_C02 (rel_kv (fun op => is_some (cas_arg op))).
 Definition kv_corr_C05 := kv_corr_proj mask_C05 rel_all.
-Definition kv_corr_C06 := kv_corr_proj mask_C06 (rel_kv (fun op => is_insert op || match op with KWriteWithXattrs _ 0 _ _ _ _ _ => true | _ => false end)).
-Definition kv_corr_C07 := kv_corr_proj mask_C07 (rel_kv xattr_op).
+Definition kv_corr_C06 := kv_corr_addr mask_C06 (rel_kv (fun op => is_insert op || match op with KWriteWithXattrs _ 0 _ _ _ _ _ => true | _ => false end)).
+Definition kv_corr_C07 := kv_corr_addr mask_C07 (rel_kv xattr_op).
 Definition kv_corr_C08 := kv_corr_proj mask_C08 (rel_kv_or_admin (fun op => negb (is_read op))).
-Definition kv_corr_C17 := kv_corr_proj mask_C17 rel_all.
+Definition kv_corr_C17 := kv_corr_addr mask_C17 rel_all.
 
 Definition kv_chk_C09 (c : scase * list ostep) : bool := chk_C09_kv c.
 Definition kv_chk_C11 (c : scase * list ostep) : bool := chk_C11_kv c.
@@ -247,7 +263,7 @@ Definition subdoc_op (op : kop) : bool :=
 (* C11 looks only at the collections the step did NOT address *)
 Definition mask_other_colls (o : sop) (ob : ostep) : ostep :=
   match o with
-  | SKv c _ _ => mkOstep ROk (map (fun e => mkFevent FMutation "" "" [] false false 0 0 0 (f_coll e)) (os_live ob)) []
+  | SKv c _ _ => mkOstep ROk [] []
                          (mkSnap (sn_colls (os_snap ob)) (rows_outside c (os_snap ob)) (order_outside c (os_snap ob)) [])
   | SDropColl c | SCreateColl c =>
       mkOstep (os_resp ob) [] [] (mkSnap (sn_colls (os_snap ob)) (rows_outside c (os_snap ob)) (order_outside c (os_snap ob)) [])
@@ -255,7 +271,7 @@ Definition mask_other_colls (o : sop) (ob : ostep) : ostep :=
   end.
 
 Definition kv_corr_C09 := kv_corr_proj mask_C09 (fun o => match o with SDump _ _ | SKv _ _ _ => true | _ => false end).
-Definition kv_corr_C18 := kv_corr_proj mask_C18 (rel_kv subdoc_op).
+Definition kv_corr_C18 := kv_corr_addr mask_C18 (rel_kv subdoc_op).
 Definition kv_corr_C11 (c : scase * list ostep) : bool :=
   match first_mismatch 0 (srun (fst c)) (snd c) with
   | None => true
